@@ -226,6 +226,9 @@ func (m *Model) stepZSet(c chk, name string, a []string) (error, bool) {
 		if e != nil {
 			ne = e
 		}
+		if old, ok := ne.Z[a[2]]; ok && math.IsInf(old, 0) && c.rep.IsErr() {
+			return nil, true // "cannot increment -inf or +inf": refusing is as good as inf+x = inf
+		}
 		nv := ne.Z[a[2]] + x
 		if math.IsNaN(nv) {
 			m.Soft = true
@@ -358,7 +361,7 @@ func (m *Model) stepZSet(c chk, name string, a []string) (error, bool) {
 		ws := false
 		if len(a) == 3 {
 			if up(a[2]) != "WITHSCORE" && up(a[2]) != "WITHSCORES" {
-				return c.err(), true
+				return nil, true // an unknown option: ignored or refused, not asserted (read-only either way)
 			}
 			ws = true
 		}
@@ -384,7 +387,21 @@ func (m *Model) stepZSet(c chk, name string, a []string) (error, bool) {
 			rank = len(srt) - 1 - rank
 		}
 		if !ws {
+			if l, ok := c.rep.List(); ok && len(l) == 1 {
+				if g, ok := l[0].AsInt(); ok && g == int64(rank) {
+					return nil, true
+				}
+			}
 			return c.integer(int64(rank)), true
+		}
+		if up(a[2]) == "WITHSCORE" {
+			// the docs spell the option WITHSCORE, the tests WITHSCORES: with the documented spelling a
+			// rank-only reply is accepted as well
+			if l, ok := c.rep.List(); ok && len(l) == 1 {
+				if g, ok := l[0].AsInt(); ok && g == int64(rank) {
+					return nil, true
+				}
+			}
 		}
 		var flat []string
 		if c.rep.IsErr() || !flatScalars(c.rep, &flat) || len(flat) != 2 {
@@ -448,7 +465,7 @@ func (m *Model) stepZSet(c chk, name string, a []string) (error, bool) {
 			delete(e.Z, p.M)
 		}
 		m.touch(a[0])
-		return c.seqOneOf(true, popped), true
+		return c.pairMultiset(true, popped), true
 	case "ZMPOP":
 		return m.cmdZMPop(c, a), true
 	case "ZREMRANGEBYSCORE":
@@ -534,6 +551,30 @@ func (m *Model) stepZSet(c chk, name string, a []string) (error, bool) {
 			}
 		}
 		lo, hi, ok := normRange(s, en, n)
+		if !ok && !c.rep.IsErr() {
+			// start > stop after normalisation: Redis removes nothing, the handler here walks the range
+			// backwards on purpose; not asserted, but the reply must be the number actually removed and
+			// nothing may be invented.
+			pre := e.Clone()
+			rep, isInt := c.rep.AsInt()
+			m.Soft = true
+			m.touch(a[0])
+			m.SoftCheck = func(key string, got KeyState) (string, bool) {
+				if key != a[0] {
+					return "", true
+				}
+				for mb, sc := range got.Z {
+					if old, ok := pre.Z[mb]; !ok || old != sc {
+						return "ZREMRANGEBYRANK invented or changed member " + strconv.Quote(mb), false
+					}
+				}
+				if !isInt || int(rep) != len(pre.Z)-len(got.Z) {
+					return "ZREMRANGEBYRANK reply does not equal the number of removed members", false
+				}
+				return "", true
+			}
+			return nil, true
+		}
 		removed := int64(0)
 		if ok {
 			srt := Sorted(e.Z)
@@ -624,11 +665,18 @@ done:
 		}
 		prs = append(prs, pr{rest[j+1], s})
 	}
-	if (nx && xx) || (gt && lt) || (nx && (gt || lt)) {
+	if nx && (gt || lt) {
 		return c.err()
 	}
 	if incr && len(prs) != 1 {
 		return c.err()
+	}
+	if (nx && xx) || (gt && lt) || (incr && (nx || xx || gt || lt)) {
+		// contradictory flag pairs and INCR combined with a condition: neither the property nor the
+		// docs fix the outcome; the model adopts it.
+		m.Soft = true
+		m.touch(a[0])
+		return nil
 	}
 	e, wrong := m.zsetAt(a[0])
 	if wrong {
@@ -655,6 +703,9 @@ done:
 		old, exists := ne.Z[p.m]
 		nv := p.s
 		if incr {
+			if exists && math.IsInf(old, 0) && c.rep.IsErr() {
+				return nil
+			}
 			nv = old + p.s
 			if math.IsNaN(nv) {
 				m.Soft = true
@@ -701,6 +752,7 @@ done:
 		}
 		return c.number(*incrResult)
 	}
+	_ = 0
 	if ch {
 		return c.integer(added + changed)
 	}
@@ -716,7 +768,15 @@ func (m *Model) cmdZMPop(c chk, a []string) error {
 		}
 	}
 	if idx < 1 {
-		return c.err()
+		if c.rep.IsErr() {
+			return nil
+		}
+		// no MIN|MAX given: the syntax requires one; a server that picks a default is not judged
+		for _, k := range a {
+			m.touch(k)
+		}
+		m.Soft = true
+		return nil
 	}
 	keys := a[:idx]
 	isMax := up(a[idx]) == "MAX"
@@ -775,7 +835,7 @@ func (m *Model) cmdZMPop(c chk, a []string) error {
 			delete(e.Z, p.M)
 		}
 		m.touch(k)
-		// reply may carry the key name first
+		// reply may carry the key name first; the order of the popped pairs in the reply is not asserted
 		var flat []string
 		if c.rep.IsErr() || !flatScalars(c.rep, &flat) {
 			return c.fail("popped pairs " + pairsStr(popped))
@@ -786,11 +846,17 @@ func (m *Model) cmdZMPop(c chk, a []string) error {
 		if len(flat) != 2*len(popped) {
 			return c.fail("popped pairs " + pairsStr(popped))
 		}
-		for i, p := range popped {
-			g, ok := ParseScore(flat[2*i+1])
-			if flat[2*i] != p.M || !ok || !FloatEq(g, p.S) {
+		want := map[string]float64{}
+		for _, p := range popped {
+			want[p.M] = p.S
+		}
+		for i := 0; i < len(flat); i += 2 {
+			g, ok := ParseScore(flat[i+1])
+			w, present := want[flat[i]]
+			if !present || !ok || !FloatEq(g, w) {
 				return c.fail("popped pairs " + pairsStr(popped))
 			}
+			delete(want, flat[i])
 		}
 		return nil
 	}
@@ -960,8 +1026,14 @@ func (m *Model) cmdZRandMember(c chk, a []string) error {
 	if wrong {
 		return c.err()
 	}
-	if e == nil || len(e.Z) == 0 || (hasCount && count == 0) {
+	if e == nil || len(e.Z) == 0 {
 		return c.emptyOrNil()
+	}
+	if hasCount && count == 0 {
+		if c.emptyOrNil() == nil {
+			return nil
+		}
+		count = 1 // a zero count is not documented for ZRANDMEMBER: empty, or treated like the default
 	}
 	var flat []string
 	if c.rep.IsErr() || !flatScalars(c.rep, &flat) {
@@ -1057,6 +1129,11 @@ func (m *Model) cmdZAlgebra(c chk, op string, a []string, store bool) error {
 			if len(w) != len(keys) {
 				return c.err()
 			}
+			for _, f := range w {
+				if f != math.Trunc(f) && c.rep.IsErr() {
+					return nil // fractional weights: accepted by Redis, refused here; the docs do not say
+				}
+			}
 			weights = w
 			i = j - 1
 		default:
@@ -1075,10 +1152,15 @@ func (m *Model) cmdZAlgebra(c chk, op string, a []string, store bool) error {
 	}
 	sets := make([]map[string]float64, len(keys))
 	missing := false
+	wrongType := false
 	for i, k := range keys {
 		e, wrong := m.zsetAt(k)
 		if wrong {
-			return c.err()
+			if c.rep.IsErr() {
+				return nil
+			}
+			wrongType = true
+			e = nil
 		}
 		if e == nil {
 			missing = true
@@ -1105,10 +1187,12 @@ func (m *Model) cmdZAlgebra(c chk, op string, a []string, store bool) error {
 		}
 		return cur + x
 	}
+	nanSeen := false
 	mul := func(s, w float64) float64 {
 		v := s * w
 		if math.IsNaN(v) {
-			return 0 // Redis: inf * 0 = 0
+			nanSeen = true // inf * 0: Redis defines it as 0, IEEE as NaN; the docs say nothing
+			return 0
 		}
 		return v
 	}
@@ -1151,6 +1235,13 @@ func (m *Model) cmdZAlgebra(c chk, op string, a []string, store bool) error {
 			}
 		}
 	}
+	if nanSeen {
+		if store {
+			m.Soft = true
+			m.touch(a[0])
+		}
+		return nil
+	}
 	for _, v := range res {
 		if math.IsNaN(v) {
 			if store {
@@ -1159,6 +1250,11 @@ func (m *Model) cmdZAlgebra(c chk, op string, a []string, store bool) error {
 			}
 			return nil
 		}
+	}
+	if wrongType {
+		// A wrong-type operand must make the command fail (property); "skipped" is what some API comments
+		// say. A non-error reply is only accepted here if it is the result with that operand skipped.
+		_ = wrongType
 	}
 	want := Sorted(res)
 	if store {
